@@ -67,7 +67,7 @@ def _var_interp(idx, cls, extra_handlers=None, extra_domains=None, frozen=False,
     C = FM.Child
     types = {"self": cls, "self.matcher": "Matcher", CP: "CsvPath", FM.EU: FM.EU}
     objs = {}
-    st = {VARS: variables if variables is not None else {}, f"{CP}._freeze_path": frozen}
+    st = {VARS: variables if variables is not None else {}, f"{CP}.{K.names(idx)['frozen']}": frozen}
     if store:
         st.update(store)
 
@@ -165,7 +165,7 @@ def r2(idx, rep):
     owners = {
         "scan_count": {"CsvPath.__init__": "0", "CsvPath._consider_line": "self.scan_count + 1"},
         "match_count": {"CsvPath.__init__": "0", "CsvPath.raise_match_count_if": "+=1"},
-        "_current_match_count": {"CsvPath.__init__": "0", "CsvPath._consider_line": "self.match_count"},
+        K.names(idx)["cmc"]: {"CsvPath.__init__": "0", "CsvPath._consider_line": "self.match_count"},
     }
     for attr, own in owners.items():
         seen = set()
@@ -205,7 +205,7 @@ def r3(idx, rep):
     bad = None
     for cur, mc in ((3, 3), (3, 4), (0, 0)):
         it = Interp(idx, types={"self": "CsvPath"})
-        ps = it.run_all(fi, store={"self._current_match_count": cur, "self.match_count": mc})
+        ps = it.run_all(fi, store={"self." + K.names(idx)["cmc"]: cur, "self.match_count": mc})
         after = ps[0].final_store["self.match_count"]
         want = mc + 1 if cur == mc else mc
         if len(ps) != 1 or after != want:
@@ -294,7 +294,7 @@ def r5(idx, rep):
     n = 0
     for frozen, tracking, start in itertools.product((False, True), (None, "t", 0, False), ({}, {"x": 1}, {"x": {"u": 9}})):
         it = Interp(idx, types={"self": "CsvPath"}, unknown_calls="residual")
-        st = {"self.variables": _copy(start), "self._freeze_path": frozen}
+        st = {"self.variables": _copy(start), "self." + K.names(idx)["frozen"]: frozen}
         ps = it.run_all(fs, args={"__pos__": ["x"], "value": 7, "tracking": tracking}, store=st)
         n += 1
         if len(ps) != 1:
@@ -317,7 +317,7 @@ def r5(idx, rep):
     rep.check(bad is None, "R5", f"{fs.file}::CsvPath.set_variable table", bad or f"{n} rows", K.where(fs, fs.node))
     for nm in (None, "", "  "):
         it = Interp(idx, types={"self": "CsvPath"}, unknown_calls="residual")
-        ps = it.run_all(fs, args={"__pos__": [nm], "value": 1, "tracking": None}, store={"self.variables": {}, "self._freeze_path": False})
+        ps = it.run_all(fs, args={"__pos__": [nm], "value": 1, "tracking": None}, store={"self.variables": {}, "self." + K.names(idx)["frozen"]: False})
         rep.check(len(ps) == 1 and ps[0].result[0] == "raise" and ps[0].final_store["self.variables"] == {}, "R5",
                   f"{fs.file}::CsvPath.set_variable rejects name {nm!r}", f"{ps[0].result}", K.where(fs, fs.node))
     # ---- get_variable
@@ -326,7 +326,7 @@ def r5(idx, rep):
     starts = ({}, {"x": 1}, {"x": 0}, {"x": [1, 2]}, {"x": {"t": 5}}, {"x": {"t": 0}}, {"x": {}})
     for frozen, tracking, sin, start in itertools.product((False, True), (None, "t"), (None, 0, []), starts):
         it = Interp(idx, types={"self": "CsvPath"}, unknown_calls="residual")
-        st = {"self.variables": _copy(start), "self._freeze_path": frozen}
+        st = {"self.variables": _copy(start), "self." + K.names(idx)["frozen"]: frozen}
         ps = it.run_all(fg, args={"__pos__": ["x"], "tracking": tracking, "set_if_none": _copy(sin)}, store=st)
         n += 1
         if len(ps) != 1:
